@@ -128,6 +128,7 @@ struct IoOps {
             const bool can = binary ? Codec<L>::bin : Codec<L>::text;
             if (!can || r.m.hasDuplicates() || !r.m.allKnown()) { r.res.probes.inc("persist_skipped"); return; }
             const Cat cat = ioCat(r, binary);
+            r.env.dirty = true;
             const std::string p = r.env.dir + (binary ? "/f.bin" : "/f.txt");
             const int fault = (int)modn(op.y, 4); // 0 none, 1 none, 2 read-eio, 3 short reads
             simdisk::Ctl &c = simdisk::ctl();
@@ -225,6 +226,7 @@ struct IoOps {
             const bool binary = modn(op.x, 2) == 1;
             const bool can = binary ? Codec<L>::bin : Codec<L>::text;
             if (!can || r.m.hasDuplicates() || !r.m.allKnown()) { r.res.probes.inc("cutall_skipped"); return; }
+            r.env.dirty = true;
             const std::string p = r.env.dir + (binary ? "/c.bin" : "/c.txt"), p2 = r.env.dir + (binary ? "/k.bin" : "/k.txt");
             libWrite(*r.g, p, binary);
             std::string bytes;
@@ -259,6 +261,7 @@ struct IoOps {
             const bool strict = modn(op.y, 2) == 0;
             const bool binary = loader == 2;
             if (binary ? !Codec<L>::bin : !Codec<L>::text) { r.res.probes.inc("loadraw_skipped"); return; }
+            r.env.dirty = true;
             const std::string p = r.env.dir + (binary ? "/r.bin" : "/r.txt");
             writeFileBytes(p, op.s);
             r.dg.u64(bytesDigest(op.s));
@@ -346,6 +349,7 @@ struct IoOps {
             if (fail >= 5 && !simdisk::linked()) fail -= 5; // injected errnos need the wrap layer
             if (fail == 2 && !writer) fail = 0; // a directory can be opened for reading: not an open failure
             std::string p;
+            r.env.dirty = true;
             simdisk::Ctl &c = simdisk::ctl();
             simdisk::disarm();
             switch (fail) {
